@@ -101,7 +101,19 @@ def gen_spec(rng, tier):
     elif kind == "tets":
         p, c, _ = volgen.gen_tets(rng.fork("v"), rng.choice([1, 4, 8]))
         spec["points"], spec["cells"] = p, c
-        if rng.chance(0.3):  # declare some faces of the cells explicitly (possibly rotated)
+        if rng.chance(0.15):
+            # EVERY face of every cell is declared by the caller (a shared face once, rotated at will): face completion has nothing to add,
+            # and may then be switched off
+            seen_ = set()
+            for cc in c:
+                for ff in cell_faces(cc):
+                    if key(ff) not in seen_:
+                        seen_.add(key(ff))
+                        ff = list(ff)
+                        k = rng.below(3)
+                        spec["faces"].append(ff[k:] + ff[:k])
+            spec["all_faces"] = True
+        elif rng.chance(0.3):  # declare some faces of the cells explicitly (possibly rotated)
             for _ in range(rng.randint(1, 3)):
                 cc = rng.choice(c)
                 ff = list(rng.choice(cell_faces(cc)))
@@ -168,7 +180,7 @@ class C02(Sim):
             "non-trivial = >= 1 build and >= 1 observation or re-wrap of a mesh with at least edges")
     FAULT_KINDS = ["rewrap", "config_flip", "failed_attempt"]
     PROBES = ["invalid_edge_filtered", "dense_edge_attr", "sparse_edge_attr", "numpy_flavour", "tuple_flavour", "hex_cells", "tet_cells",
-              "declared_faces_on_volume", "polygon_face", "file_path", "from_arrays_path", "rewrap", "switch_off_build", "query_script", "2d_padded", "peek_dimensionality", "input_lists_reused", "two_stage_build", "first_attempt_raised", "first_attempt_accepted", "rewrap_with_more_edges", "face_with_repeated_vertex", "path_rewritten_between_loads"]
+              "declared_faces_on_volume", "polygon_face", "file_path", "from_arrays_path", "rewrap", "switch_off_build", "query_script", "2d_padded", "peek_dimensionality", "input_lists_reused", "two_stage_build", "first_attempt_raised", "first_attempt_accepted", "rewrap_with_more_edges", "face_with_repeated_vertex", "path_rewritten_between_loads", "obj_relative_interleaved"]
     QUICK_RUNS = 4000
     THOROUGH_RUNS = 400000
     BLOCK = 40
@@ -176,7 +188,7 @@ class C02(Sim):
                    "declared edges are pairwise distinct (duplicate declarations are outside the statement)",
                    "hexahedra use the Medit/VTK vertex order (bottom loop, top loop)",
                    "a re-wrap is judged as the identity only when the completion switches in force equal those at the original build",
-                   "complete_faces_from_cells is switched off only for specs without cells (cell-face records need the faces to exist)",
+                   "complete_faces_from_cells is switched off only for specs without cells, or whose cells have ALL their faces declared (cell-face records need the faces to exist)",
                    "the edge list is compared as a multiset (the statement fixes no order)"]
     COMPONENTS = {"real": ["mouette.mesh.mesh_data", "mouette.mesh.mesh", "mouette.mesh.datatypes.*", "mouette.mesh.data_container", "mouette.mesh.io.obj/medit/tet (load path)"],
                   "stub": ["file system: SimFS behind the module-level open seam", "file contents planted by minimal reference writers"]}
@@ -245,14 +257,14 @@ class C02(Sim):
         c = self.pick_client(rng, names, weights, cfg["burst"])
         r = self.client_rng(c)
         if c == "config":
-            k = r.choice(["ce", "cf"]) if not self.spec["cells"] else "ce"
+            k = r.choice(["ce", "cf"]) if (not self.spec["cells"] or self.spec.get("all_faces")) else "ce"
             return {"c": c, "op": "flip", "key": k, "value": not self.sw[k]}
         if c == "builder" or not self.slots:
             path = r.choice(self._paths())
             fl = r.choice(cfg["flavours"]) if path in ("raw_class", "instanciate", "two_stage") else ("numpy" if path == "from_arrays" else "file")
             return {"c": "builder", "op": "build", "path": path, "flavour": fl, "slot": "m%d" % self.nbuild, "pad2d": r.chance(0.5),
                     "peek": r.choice([None, None, "early", "late"]), "reuse": r.chance(0.4),
-                    "retry": r.choice(["bad_edge", "config"]) if cfg["faults_on"] and r.chance(0.3) else None, "decoy": r.chance(0.3)}
+                    "retry": r.choice(["bad_edge", "config"]) if cfg["faults_on"] and r.chance(0.3) else None, "decoy": r.chance(0.3), "obj_style": r.choice([None, "relative"])}
         slot = r.choice(sorted(self.slots))
         if c == "rewrapper":
             if r.chance(0.25) and hasattr(self.slots[slot].mesh, "edges"):
@@ -274,7 +286,7 @@ class C02(Sim):
         if op == "build":
             return ev["slot"] not in self.slots and ev["path"] in self._paths()
         if op == "flip":
-            return not (ev["key"] == "cf" and self.spec["cells"])
+            return not (ev["key"] == "cf" and self.spec["cells"] and not self.spec.get("all_faces"))
         if ev.get("slot") not in self.slots:
             return False
         if op == "rewrap_add_edges":
@@ -391,7 +403,16 @@ class C02(Sim):
                                            "faces": [] if path == "file_tet" else [[0, 1, 2]], "cells": [[0, 1, 2, 3]] if path != "file_obj" else []}).encode()
             call(M.mesh.load, fname)
             self.probes["path_rewritten_between_loads"] += 1
-        self.fs.files[fname] = writer(s).encode()
+        n_ = len(s["points"])
+        if path == "file_obj" and ev.get("obj_style") == "relative" and all(a != b and 0 <= a < n_ and 0 <= b < n_ for a, b in s["edges"]):
+            # the same content as another writer puts it: relative (negative) indices, every vertex written just before the first face using it
+            from models import ref_codecs as RC
+            self.fs.files[fname] = RC.write("obj", {"vertices": [list(map(float, p_)) for p_ in s["points"]], "edges": [list(e) for e in s["edges"]],
+                                                    "faces": [list(f) for f in s["faces"]], "cells": [], "attributes": {}},
+                                            relative_indices=True, interleave=True)
+            self.probes["obj_relative_interleaved"] += 1
+        else:
+            self.fs.files[fname] = writer(s).encode()
         return call(M.mesh.load, fname)
 
     # ------------------------------------------------------------------ observation against the normal form
